@@ -38,7 +38,9 @@ class Lin:
         from ..tutil import atom
         from .common import resolve_callee
 
-        a, pol = atom(t.cond)
+        from ..tutil import pos_form
+
+        a, pol = atom(pos_form(t.cond))
         parts = list(a.vals) if (a.op == "bool" and a.opname == "or") else [a]
         if not pol and len(parts) > 1:
             return None
